@@ -23,3 +23,76 @@ def renderIso (sep : Char) (t : DT) : List Char :=
   pad2 t.hh.toNat ++ [':'] ++ pad2 t.mm.toNat ++ [':'] ++ pad2 t.ss.toNat
 
 end PT
+
+namespace PT
+
+/-- `'%06d' % n` for `n < 1000000` -/
+def pad6 (n : Nat) : List Char :=
+  [digitChar (n / 100000), digitChar (n / 10000), digitChar (n / 1000), digitChar (n / 100), digitChar (n / 10), digitChar n]
+
+/-- the offset / zone suffix of a rendering -/
+inductive Off where
+  | naive                                  -- nothing
+  | z (sp : Bool)                          -- `Z` / ` Z`
+  | utc                                    -- ` UTC`
+  | hh (sp neg : Bool) (h : Nat)           -- `±HH`
+  | hhmm (sp neg : Bool) (h m : Nat)       -- `±HHMM`
+  | hhcmm (sp neg : Bool) (h m : Nat)      -- `±HH:MM`
+  deriving Repr, DecidableEq
+
+def spc (sp : Bool) : List Char := if sp then [' '] else []
+def sgn (neg : Bool) : Char := if neg then '-' else '+'
+
+def Off.render : Off → List Char
+  | .naive => []
+  | .z sp => spc sp ++ ['Z']
+  | .utc => [' ', 'U', 'T', 'C']
+  | .hh sp neg h => spc sp ++ [sgn neg] ++ pad2 h
+  | .hhmm sp neg h m => spc sp ++ [sgn neg] ++ pad2 h ++ pad2 m
+  | .hhcmm sp neg h m => spc sp ++ [sgn neg] ++ pad2 h ++ [':'] ++ pad2 m
+
+/-- the offset in seconds the suffix means (`none` = no zone) -/
+def Off.seconds : Off → Option Int
+  | .naive => none
+  | .z _ => some 0
+  | .utc => some 0
+  | .hh _ neg h => some ((if neg then -1 else 1) * ((h : Int) * 3600))
+  | .hhmm _ neg h m => some ((if neg then -1 else 1) * ((h : Int) * 3600 + (m : Int) * 60))
+  | .hhcmm _ neg h m => some ((if neg then -1 else 1) * ((h : Int) * 3600 + (m : Int) * 60))
+
+/-- offsets between -23:59 and +23:59 -/
+def Off.Dom : Off → Prop
+  | .hh _ _ h => h ≤ 23
+  | .hhmm _ _ h m => h ≤ 23 ∧ m ≤ 59
+  | .hhcmm _ _ h m => h ≤ 23 ∧ m ≤ 59
+  | _ => True
+
+/-- the time-of-day part of the ISO-like renderings -/
+inductive TimeFmt where
+  | hms                                    -- HH:MM:SS
+  | frac (comma : Bool) (k : Nat)          -- HH:MM:SS.f… / HH:MM:SS,f… with k fraction digits
+  | hm                                     -- HH:MM
+  deriving Repr, DecidableEq
+
+def TimeFmt.render (f : TimeFmt) (t : DT) : List Char :=
+  match f with
+  | .hms => pad2 t.hh.toNat ++ [':'] ++ pad2 t.mm.toNat ++ [':'] ++ pad2 t.ss.toNat
+  | .frac comma k => pad2 t.hh.toNat ++ [':'] ++ pad2 t.mm.toNat ++ [':'] ++ pad2 t.ss.toNat ++
+      [if comma then ',' else '.'] ++ (pad6 t.us.toNat).take k
+  | .hm => pad2 t.hh.toNat ++ [':'] ++ pad2 t.mm.toNat
+
+/-- what parsing must return: the fields the format shows, microseconds cut to the digits shown; `HH:MM`
+    names neither seconds nor microseconds, which therefore come from the default (C15) -/
+def TimeFmt.expect (f : TimeFmt) (t dflt : DT) : DT :=
+  match f with
+  | .hms => { t with us := 0 }
+  | .frac _ k => { t with us := t.us / 10 ^ (6 - k) * 10 ^ (6 - k) }
+  | .hm => { t with ss := dflt.ss, us := dflt.us }
+
+def isoDate (t : DT) : List Char := pad4 t.y.toNat ++ ['-'] ++ pad2 t.m.toNat ++ ['-'] ++ pad2 t.d.toNat
+
+/-- `YYYY-MM-DD<sep><time><offset>` -/
+def renderIsoX (sep : Char) (f : TimeFmt) (t : DT) (off : Off) : List Char :=
+  isoDate t ++ [sep] ++ f.render t ++ off.render
+
+end PT
